@@ -756,8 +756,10 @@ fn judge_enet(
     if out.gap < -gap_floor {
         fail!("gap-negative", {"gap": out.gap, "floor": gap_floor});
     }
-    if l1 > 0.0 && out.n_steps < cfg.max_iter {
-        // early stop only through `gap < tol * ||y||^2`
+    if out.n_steps < cfg.max_iter {
+        // early stop only through `gap < tol * ||y||^2` — also without an l1 term, where the gap
+        // degenerates to the primal value and an early stop therefore means a (near-)perfect fit:
+        // any other early exit returns a point that the stated tolerance does not certify
         let lim = cfg.tol * ycsq * (1.0 + 1e-3) + gap_floor;
         if out.gap > lim {
             fail!("gap-above-tolerance-at-early-stop", {"gap": out.gap, "tol*|y|^2": cfg.tol * ycsq, "n_steps": out.n_steps});
